@@ -257,7 +257,9 @@ print json([$.s.length(), $.s.upper(), $.s.lower(), $.s.upper().upper(), $.s.low
 		if len(c.Keys) > 0 && !strings.Contains(c.Keys[0], "length") && !strings.Contains(c.Keys[0], "pluck") {
 			// (a key that names a method reads as the method when the object lacks it)
 			k0 := c.Keys[0]
-			indep = `; p = $.o.pluck(` + k0 + `); p[` + k0 + `] = "changed-in-copy"; print json([$.o[` + k0 + `]])` +
+			// the members of one result are places of their own: a store into one leaves the others alone
+			indep = `; r = $.o.pluck(` + strings.Join(args, ", ") + `); r[` + k0 + `] = "changed-in-result"; print json(r)` +
+				`; p = $.o.pluck(` + k0 + `); p[` + k0 + `] = "changed-in-copy"; print json([$.o[` + k0 + `]])` +
 				`; q = $.o.pluck(` + k0 + `); $.o[` + k0 + `] = "changed-in-original"; print json([q[` + k0 + `]])`
 		}
 		prog := `{ print json($.o.pluck(` + strings.Join(args, ", ") + `)); print json($.o); print json(` + lengthCall + `)` + indep + ` }`
@@ -265,10 +267,10 @@ print json([$.s.length(), $.s.upper(), $.s.lower(), $.s.upper().upper(), $.s.low
 		if msg != "" {
 			return msg
 		}
-		if len(vals) != 3 && len(vals) != 5 {
+		if len(vals) != 3 && len(vals) != 6 {
 			return "unexpected output shape"
 		}
-		if len(vals) == 5 {
+		if len(vals) == 6 {
 			kv, _ := jsonx.Parse(c.Keys[0])
 			ks := kv.S
 			if kv.K == jsonx.Num {
@@ -279,7 +281,7 @@ print json([$.s.length(), $.s.upper(), $.s.lower(), $.s.upper().upper(), $.s.low
 				orig = jsonx.VNull()
 			}
 			for i, what := range []string{"a store into the plucked copy changed the original", "a store into the original changed the plucked copy"} {
-				got := vals[3+i]
+				got := vals[4+i]
 				if got.K != jsonx.Arr || len(got.Items) != 1 || !jsonx.Equal(got.Items[0], orig) {
 					return fmt.Sprintf("%s: member %s is now %s, was %s", what, c.Keys[0], jsonx.Compact(got), jsonx.Compact(orig))
 				}
@@ -304,6 +306,19 @@ print json([$.s.length(), $.s.upper(), $.s.lower(), $.s.upper().upper(), $.s.low
 		}
 		if !jsonx.Equal(vals[0], want) {
 			return fmt.Sprintf("%s.pluck(%s) = %s, want %s", c.Obj, strings.Join(args, ", "), jsonx.Compact(vals[0]), jsonx.Compact(want))
+		}
+		if len(vals) == 6 {
+			after := jsonx.VObj()
+			for i, m := range want.Members {
+				if i == 0 {
+					after.Members = append(after.Members, jsonx.Member{Key: m.Key, Val: jsonx.VStr("changed-in-result")})
+				} else {
+					after.Members = append(after.Members, m)
+				}
+			}
+			if !jsonx.Equal(vals[3], after) {
+				return fmt.Sprintf("after a store into member %s of %s.pluck(%s) the result is %s, want %s", c.Keys[0], c.Obj, strings.Join(args, ", "), jsonx.Compact(vals[3]), jsonx.Compact(after))
+			}
 		}
 		if !jsonx.Equal(vals[1], recv) {
 			return fmt.Sprintf("pluck changed its receiver: %s -> %s", jsonx.Compact(recv), jsonx.Compact(vals[1]))
